@@ -23,6 +23,53 @@ Theorem C09_unknown_round_has_no_keys :
 Proof. exact fresh_round_no_valid_sig. Qed.
 Print Assumptions C09_unknown_round_has_no_keys.
 
+(* the four deviations the property names, each for every node state, clock value and message other
+   than the opening proposal (Node/Deviations.v, corollaries of the theorem above): a missing or
+   garbled signature ... *)
+Require Import Node.Deviations.
+Theorem C09_missing_signature_refused :
+  forall now st m, ns_skip st = false -> m_event m <> ev_sig_init ->
+  (m_sig m = SigNone \/ m_sig m = SigJunk) -> untouched st (node_step now st (InMsg m)).
+Proof. exact missing_signature_refused. Qed.
+
+(* ... an altered payload under a genuine signature ... *)
+Theorem C09_altered_payload_refused :
+  forall now st m k d, ns_skip st = false -> m_event m <> ev_sig_init ->
+  m_sig m = SigBy k d -> d <> m_data m -> untouched st (node_step now st (InMsg m)).
+Proof. exact altered_payload_refused. Qed.
+
+(* ... a signature made with any key other than the one registered in that round for the sender ... *)
+Theorem C09_other_key_refused :
+  forall now st m k d, ns_skip st = false -> m_event m <> ev_sig_init ->
+  m_sig m = SigBy k d ->
+  (forall p, round_payload st (m_round m) p -> tget (p_pubkeys p) (m_sender m) <> Some k) ->
+  untouched st (node_step now st (InMsg m)).
+Proof. exact other_key_refused. Qed.
+
+(* ... an unknown or blank sender *)
+Theorem C09_unknown_sender_refused :
+  forall now st m, ns_skip st = false -> m_event m <> ev_sig_init ->
+  (forall p, round_payload st (m_round m) p -> tget (p_pubkeys p) (m_sender m) = None) ->
+  untouched st (node_step now st (InMsg m)).
+Proof. exact unknown_sender_refused. Qed.
+Theorem C09_blank_sender_refused :
+  forall now st m, ns_skip st = false -> m_event m <> ev_sig_init -> m_sender m = 0%N ->
+  untouched st (node_step now st (InMsg m)).
+Proof. exact blank_sender_refused. Qed.
+Print Assumptions C09_other_key_refused.
+
+(* non-vacuity on a concrete node: the genuine confirmation is accepted and written; each deviation
+   of it is refused with the state and the (empty) trace of writes unchanged *)
+Example C09_deviations_example :
+  (exists h, node_step 777%Z dv_node (InMsg (dv_with 11%N (SigBy 3%N 11%N) 2%N)) = ROk h tt /\ h_tr h <> []) /\
+  dv_refused (dv_with 12%N (SigBy 3%N 11%N) 2%N) /\
+  dv_refused (dv_with 11%N (SigBy 6%N 11%N) 2%N) /\
+  dv_refused (dv_with 11%N SigNone 2%N) /\
+  dv_refused (dv_with 11%N SigJunk 2%N) /\
+  dv_refused (dv_with 11%N (SigBy 3%N 11%N) 99%N) /\
+  dv_refused (dv_with 11%N (SigBy 3%N 11%N) 0%N).
+Proof. exact deviations_example. Qed.
+
 (* regenerated from cmd/dc4bc_d on every run: every option key of the daemon is bound to the command-line
    flag of the same name - the switch that turns signature verification off is its own flag, and no other
    flag (e.g. the one that lists offsets to ignore) sets it *)
